@@ -544,6 +544,40 @@ impl<'tcx> Cx<'tcx> {
                         let s = a
                             .read_scalar(&tcx, rustc_middle::mir::interpret::alloc_range(offset, ptr_size), true)
                             .ok()?;
+                        if let ty::Dynamic(..) = inner.kind() {
+                            // a trait object inside a larger constant: (data pointer, vtable pointer); the vtable allocation names
+                            // the concrete type behind the object
+                            let vs = a
+                                .read_scalar(&tcx, rustc_middle::mir::interpret::alloc_range(offset + ptr_size, ptr_size), true)
+                                .ok()?;
+                            let vp = match vs { Scalar::Ptr(p, _) => p, _ => return None };
+                            let (vprov, _) = vp.prov_and_relative_offset();
+                            let concrete = match tcx.global_alloc(vprov.alloc_id()) {
+                                GlobalAlloc::VTable(cty, _) => cty,
+                                _ => return None,
+                            };
+                            let env = ty::TypingEnv::fully_monomorphized();
+                            let zst = tcx.layout_of(env.as_query_input(concrete)).map(|l| l.is_zst()).unwrap_or(false);
+                            let pj = if zst {
+                                self.const_value(ConstValue::ZeroSized, concrete, depth + 1)?
+                            } else {
+                                match s {
+                                    Scalar::Ptr(dp, _) => {
+                                        let (dprov, doff) = dp.prov_and_relative_offset();
+                                        match tcx.global_alloc(dprov.alloc_id()) {
+                                            GlobalAlloc::Memory(_) => self.const_value(
+                                                ConstValue::Indirect { alloc_id: dprov.alloc_id(), offset: doff },
+                                                concrete,
+                                                depth + 1,
+                                            )?,
+                                            _ => return None,
+                                        }
+                                    }
+                                    _ => return None,
+                                }
+                            };
+                            return Some(J::obj(vec![("ty", self.ty(t)), ("ref", pj), ("dyn_of", self.ty(concrete))]));
+                        }
                         let is_fat = matches!(inner.kind(), ty::Slice(_) | ty::Str | ty::Dynamic(..));
                         let m = if is_fat {
                             let ms = a
